@@ -28,6 +28,9 @@ def gen_program(rng):
         # threads blocked in Reply.get()/waitfinish() of the SAME reply, started the moment the spawn is accepted
         "getters": rng.choice([0, 0, 1, 2, 3]),
         "getter_timeout": rng.choice([None, None, 50.0]),
+        # the k-th request for a new thread fails ("can't start new thread": thread limit, interpreter shutdown): that spawn raises,
+        # the task is not accepted and must not count as running
+        "start_fails": rng.choice([None, None, None, 0, 1]),
     }
 
 
@@ -37,9 +40,22 @@ def run_program(prog, chooser, line_budget):
     sc = S.Sched(chooser, line_budget=line_budget, max_steps=60000)
     em = S.SchedExecModel(sc, backend=prog["backend"])
     pool = WorkerPool(em, hasprimary=prog["hasprimary"])
+    if prog.get("start_fails") is not None:
+        nstart = [0]
+        real_start = em.start
+
+        def failing_start(func, args=()):
+            if getattr(func, "__name__", "") == "_perform_spawn":
+                nstart[0] += 1
+                if nstart[0] - 1 == prog["start_fails"]:
+                    raise RuntimeError("can't start new thread")
+            return real_start(func, args)
+
+        em.start = failing_start
     runs = {}          # task id -> number of executions
     thread_of = {}
     accepted, refused, results = [], [], {}
+    errored = []
     waitres = []
     got_k = S.SEvent(sc, "k-replies")
     replies = {}
@@ -90,6 +106,9 @@ def run_program(prog, chooser, line_budget):
             except ValueError:
                 refused.append(tid)
                 continue
+            except RuntimeError:
+                errored.append(tid)       # no thread for it: not accepted
+                continue
             accepted.append(tid)
             replies[tid] = r
             prev = r
@@ -98,6 +117,8 @@ def run_program(prog, chooser, line_budget):
                 sc.spawn(getter, (tid, r, g), name=f"getter{tid}_{g}")
             if si == 0 and prog["shutdown_after"] is not None and j + 1 >= prog["shutdown_after"]:
                 got_k.set()
+        if si == 0:
+            got_k.set()       # (a spawn that was refused or raised never reaches the line above)
 
     def shutdown():
         if prog["shutdown_after"]:
@@ -157,7 +178,7 @@ def run_program(prog, chooser, line_budget):
             except Exception:  # noqa
                 reply_ok = False
     return {
-        "result": res, "deadlock": sc.deadlock_info, "accepted": accepted, "refused": refused, "runs": dict(runs), "thread_of": dict(thread_of),
+        "result": res, "deadlock": sc.deadlock_info, "accepted": accepted, "refused": refused, "errored": errored, "runs": dict(runs), "thread_of": dict(thread_of),
         "waitres": waitres, "getres": sorted(getres, key=repr), "reply_ok": reply_ok, "schedule": sc.trace, "primary_exited": flags["primary_exited"],
         "shut": pool._shuttingdown, "running_left": len(pool._running), "clock": sc.clock,
         "thread_errors": [repr(t.exc) for t in sc.threads if t.exc is not None],
@@ -177,9 +198,11 @@ def check_run(ck, prog, out, ex):
         if n == 0:
             # every thread is finished or blocked for good: the task will never run
             ck.fail("accepted-task-never-executed" + (":after-shutdown" if out["shut"] else ""), ex)
-    for t in out["refused"]:
+    for t in out["refused"] + out.get("errored", []):
         if out["runs"].get(t, 0):
             ck.fail("refused-task-executed", ex)
+    if out.get("errored") and res == "ok" and out["running_left"]:
+        ck.fail("task-whose-thread-could-not-start-still-counts-as-running", ex)
     if out["refused"] and not out["shut"]:
         ck.fail("spawn-refused-without-shutdown", ex)
     for w in out["waitres"]:
@@ -248,7 +271,7 @@ def main(tier, seed, replay=None):
         chooser = S.ReplayChooser(schedule) if schedule is not None else (S.PCTChooser(r, depth=rng.choice([2, 3, 4]), est_steps=120) if sd % 4 == 0 else S.RandomChooser(r, line_p=0.15))
         out = run_program(prog, chooser, lb)
         nruns += 1
-        ex = {"prog": prog, "schedule": out["schedule"], "line_budget": lb, "outcome": {k: out[k] for k in ("result", "accepted", "refused", "runs", "waitres", "getres", "primary_exited", "shut", "running_left", "deadlock", "clock")}}
+        ex = {"prog": prog, "schedule": out["schedule"], "line_budget": lb, "outcome": {k: out[k] for k in ("result", "accepted", "refused", "errored", "runs", "waitres", "getres", "primary_exited", "shut", "running_left", "deadlock", "clock")}}
         ck.case(("p", repr(prog), tuple(out["schedule"])), nontrivial=len(out["schedule"]) > 2)
         ck.count("runs_" + prog["backend"] + ("_primary" if prog["hasprimary"] else "_noprimary"))
         ck.count("result_" + str(out["result"]))
@@ -269,7 +292,7 @@ def main(tier, seed, replay=None):
             chooser = S.RandomChooser(r, line_p=0.3) if k % 2 else S.PCTChooser(r, depth=5, est_steps=200)
             out = run_program(prog, chooser, 10)
             nruns += 1
-            ex = {"prog": prog, "schedule": out["schedule"], "line_budget": 10, "outcome": {k2: out[k2] for k2 in ("result", "accepted", "refused", "runs", "waitres", "getres", "primary_exited", "shut", "running_left", "deadlock", "clock")}}
+            ex = {"prog": prog, "schedule": out["schedule"], "line_budget": 10, "outcome": {k2: out[k2] for k2 in ("result", "accepted", "refused", "errored", "runs", "waitres", "getres", "primary_exited", "shut", "running_left", "deadlock", "clock")}}
             ck.case(("search", repr(prog), tuple(out["schedule"])), nontrivial=True)
             check_run(ck, prog, out, ex)
             if ck.failures:
